@@ -149,6 +149,10 @@ func (a *Act) instr(st *State, b *ssa.BasicBlock, instr ssa.Instruction) {
 		}
 		a.storeCheck(st, lv, in.Pos())
 		a.checkGuardedAccess(st, lv, true, in.Pos(), nil)
+		a.checkSharedFlag(st, lv, true, a.valAs(st, in.Val), in.Pos())
+		if g, ok := in.Addr.(*ssa.Global); ok && tr.lockMode && tr.globalStoreGuard != nil {
+			a.oblige(st, "global/store", in.Pos(), "true", tr.globalStoreGuard(a, st, g), map[string]Term{"global": fmt.Sprintf("%q", g.Name())})
+		}
 		a.store(st, lv, a.valAs(st, in.Val))
 	case *ssa.UnOp:
 		a.unop(st, in)
@@ -309,6 +313,7 @@ func (a *Act) unop(st *State, in *ssa.UnOp) {
 		a.setVal(in, t)
 		a.assumeWF(st, in.Type(), a.vals[in], 1)
 		a.checkGuardedAccess(st, lv, false, in.Pos(), in)
+		a.checkSharedFlag(st, lv, false, "", in.Pos())
 		if lv.kind == lvField {
 			// the enclosing heap-resident struct satisfies its type invariant
 			b := lv.base
